@@ -52,6 +52,13 @@ harness guarantees it.
 import EPV.Spec.ClosureSem
 namespace EPV.Clo
 
+/-- `dict[k] = v`: a Python dict has one entry per key (keeps the association list bounded by the
+number of distinct variable names) -/
+def envSet (D : Env) (k : Nat) (v : Seq) : Env := (k, v) :: D.filter (fun p => p.1 != k)
+
+/-- `dict.update(new)` where earlier entries of `new` win over later ones -/
+def envUpdate (D : Env) (new : List (Nat × Seq)) : Env := new.foldr (fun p d => envSet d p.1 p.2) D
+
 /-- which of the two repairs the modelled tree contains -/
 structure Cfg where
   /-- F16 present: function expression returns the token itself -/
@@ -170,7 +177,7 @@ def currentVars (o : FObj) : IM (Option Env × Env) :=
 def runBody (c : ICtx) (D : Env) (body : Expr) (binds : List (Nat × Seq)) (env : Option Env) (lex : Env) :
     IM (Seq × Env) := do
   -- context = copy(context); context.variables.update(self.variables); context.variables[p] = v
-  let D1 := binds ++ (env.getD []) ++ D
+  let D1 := envUpdate D (binds ++ env.getD [])
   let r ← ev body { item := c.item, lex := binds ++ lex, litem := none } D1
   -- with F05 the dict that was written is the caller's
   pure (r.1, if cfg.leak then r.2 else D)
@@ -352,7 +359,7 @@ on the private dict `D` of the `for` expression -/
 def forLoop (c : ICtx) (x : Nat) (b : Expr) : Env → Seq → Seq → IM (Seq × Env)
   | D, acc, [] => pure (acc, D)
   | D, acc, i :: is => do
-    let r ← ev b { c with lex := (x, [i]) :: c.lex } ((x, [i]) :: D)
+    let r ← ev b { c with lex := (x, [i]) :: c.lex } (envSet D x [i])
     forLoop c x b r.2 (acc ++ r.1) is
 
 /-- `for context.item in self[0].select_with_focus(context): yield from self[1].select(context)` -/
@@ -399,7 +406,7 @@ def step (e : Expr) (c : ICtx) (D : Env) : IM (Seq × Env) :=
     pure (r.1, D)
   | .letE x v b => do
     let xv ← ev v c D
-    let r ← ev b { c with lex := (x, xv.1) :: c.lex } ((x, xv.1) :: xv.2)
+    let r ← ev b { c with lex := (x, xv.1) :: c.lex } (envSet xv.2 x xv.1)
     pure (r.1, D)
   | .fnE t ps body => do
     -- pinned: self.variables = context.variables.copy(); return self
